@@ -1399,10 +1399,10 @@ class tensor:
         array([1, 2, 3])
         """
         shapeArray = np.array(self.shape)
-        if np.all(shapeArray > 1):
+        if np.all(shapeArray != 1):
             return self.copy()
         else:
-            idx = np.where(shapeArray > 1)
+            idx = np.where(shapeArray != 1)
             if idx[0].size == 0:
                 # Why is item annotated as str?
                 single_item: float = cast(float, self.data.item())
